@@ -79,7 +79,7 @@ def marker_pin_only(case, detail, m):
         notes = ast.literal_eval(rest.strip())
     except Exception:
         return False
-    if not notes or len(notes) >= 6:      # the driver lists at most 6 notes: a full list may hide others
+    if not notes or len(notes) >= 6:      # the driver lists at most 6 distinct notes (all of the first failing step)
         return False
     ok_notes = ("a pinned marker (reload/break) left its place", "a listed reload/break is not at its place")
     return all(any(t in n.get("what", "") for t in ok_notes) and "; " not in n.get("what", "") for n in notes)
@@ -87,26 +87,6 @@ def marker_pin_only(case, detail, m):
 
 PREDICATES = {"marker_pin_only": marker_pin_only}
 
-
-def lkh_diverse_only(case, detail, m):
-    """known-finding predicate (S47): every reported note belongs to a step of the diverse LKH operator (judging of the
-    history stops at that step), and the only failing entry is the bookkeeping partition (a marker job listed twice)"""
-    if not isinstance(detail, str) or not detail.startswith("oracle failed: "):
-        return False
-    head, _, rest = detail[len("oracle failed: "):].partition(" ")
-    keys = set(k for k in head.split(",") if k)
-    allowed = {"jobs_partitioned"}      # the overload of the same step was repaired (S47a) and is reported again if it returns
-    if not keys or not keys <= allowed:
-        return False
-    import ast
-    try:
-        notes = ast.literal_eval(rest.strip())
-    except Exception:
-        return False
-    return bool(notes) and len(notes) < 6 and all(n.get("op") == "lkh_diverse" for n in notes)
-
-
-PREDICATES["lkh_diverse_only"] = lkh_diverse_only
 
 
 PROP = dict(
